@@ -1,7 +1,7 @@
 CONSTANTS
   Streams = {0}
   Paired = FALSE
-  MaxOps = 5
+  MaxOps = 6
   MaxWire = 3
   BarrierBug = TRUE
   ResetLoose = FALSE
